@@ -236,6 +236,7 @@ pub struct World {
     pub ghost stdout_bytes: Seq<u8>,             // bytes written to the process's standard output
     pub ghost lock_held: bool,
     pub ghost midline: bool,                     // C20: some flush handed the listener a block that does not end at a line boundary
+    pub ghost archives: Map<Seq<char>, Seq<u8>>,   // path of a finished zstd archive -> the bytes it decodes to
     pub ghost effects: nat,
     pub ghost bind_attempts: nat,                // attempts to bind the lock address
     pub ghost addr_in_use: bool,                 // another process holds the lock address right now                      // number of mutating application entry points entered
@@ -279,7 +280,15 @@ pub mod mem {
     // std::mem::take on a byte vector (R17 re-roots the path): returns the content, leaves it empty
     #[verifier::external_body] pub fn take(v: &mut Vec<u8>) -> (r: Vec<u8>) ensures r@ == old(v)@, final(v)@.len() == 0 { unimplemented!() }
 }
-pub mod sync { pub use std::sync::Arc; }
+pub mod sync { pub use std::sync::Arc;
+    pub mod atomic {
+        use vstd::prelude::*;
+        pub enum Ordering { Relaxed, SeqCst }
+        pub struct AtomicBool { pub x: u8 }
+        // the flag may be raised at any time by another thread: the value read is unconstrained
+        impl AtomicBool { #[verifier::external_body] pub fn load(&self, o: Ordering) -> bool { unimplemented!() } }
+    }
+}
 pub mod tokio_util { pub mod sync {
     use vstd::prelude::*;
     pub struct CancellationToken { pub x: u8 }
@@ -391,6 +400,16 @@ pub mod tokio {
                 { unimplemented!() }
             }
             impl<T> Clone for Sender<T> { #[verifier::external_body] fn clone(&self) -> (r: Self) ensures r.chan == self.chan { unimplemented!() } }
+            // ASSUMED: blocking_recv delivers the messages in the order they were sent (`incoming` = the messages still to come, a prophecy;
+            // None once every sender is gone and the queue is empty)
+            pub struct Receiver<T> { pub ghost incoming: Seq<T>, pub ghost taken: Seq<T>, pub _t: ::std::marker::PhantomData<T> }
+            impl<T> Receiver<T> {
+                #[verifier::external_body] pub fn blocking_recv(&mut self) -> (r: Option<T>)
+                    ensures
+                        r matches Some(m) ==> old(self).incoming.len() > 0 && m == old(self).incoming[0] && final(self).incoming == old(self).incoming.skip(1) && final(self).taken == old(self).taken.push(m),
+                        r is None ==> final(self).incoming == old(self).incoming && final(self).taken == old(self).taken,
+                { unimplemented!() }
+            }
         }
         // tokio::sync::Mutex around the log tail connection
         pub struct Mutex<T> { pub t: T }
@@ -508,6 +527,53 @@ pub mod fs {
             r is Err ==> final(w).fs == old(w).fs && (final(w).io_faults == old(w).io_faults + 1 || (final(w).io_faults == old(w).io_faults && !old(w).fs.dom().contains(from.pview()))),
     { unimplemented!() }
 }
+
+// ---------------- BufWriter -> zstd encoder -> file (units tracking, compress; ASSUMED library behaviour) ----------------
+pub uninterp spec fn zstd_frame(b: Seq<u8>) -> Seq<u8>;        // the complete zstd stream an encoder emits for input b (level fixed)
+pub mod iow {
+    use vstd::prelude::*;
+    use super::*;
+    pub struct BufWriter { pub f: fs::File }
+    // BufWriter::new does no I/O
+    impl BufWriter { #[verifier::external_body] pub fn new(f: fs::File) -> (r: BufWriter) ensures r.f == f { unimplemented!() } }
+}
+pub mod zstdw {
+    use vstd::prelude::*;
+    use super::*;
+    pub struct Encoder { pub bw: iow::BufWriter, pub ghost input: Seq<u8>, pub ghost finished: bool }
+    impl Encoder {
+        // Encoder::new writes nothing yet (ASSUMED: the frame header is buffered until the first flush, which here is finish())
+        #[verifier::external_body] pub fn new(bw: iow::BufWriter, level: i32) -> (r: Result<Encoder, std::io::Error>)
+            ensures r matches Ok(e) ==> e.bw == bw && e.input == Seq::<u8>::empty() && !e.finished { unimplemented!() }
+        // finish(): the complete stream for everything written so far goes to the file AT ITS OFFSET (nothing is truncated here);
+        // on failure some prefix of it may have been written
+        #[verifier::external_body] pub fn finish(self, Tracked(w): Tracked<&mut World>) -> (r: Result<iow::BufWriter, std::io::Error>)
+            requires recoverable(*old(w)), old(w).fs.dom().contains(self.bw.f.p), 0 <= self.bw.f.pos <= old(w).fs[self.bw.f.p].len(),
+            ensures
+                final(w).ptr == old(w).ptr, final(w).last == old(w).last, final(w).ptr_new == old(w).ptr_new,
+                final(w).fs.dom() == old(w).fs.dom(), forall|q: Seq<char>| q != self.bw.f.p ==> final(w).fs[q] == old(w).fs[q],
+                r is Ok ==> final(w).fs[self.bw.f.p] == fs::overwrite(old(w).fs[self.bw.f.p], self.bw.f.pos, zstd_frame(self.input)) && final(w).io_faults == old(w).io_faults,
+                r is Err ==> final(w).io_faults == old(w).io_faults + 1,
+        { unimplemented!() }
+        // std::io::Write::write_all into the encoder (compressor thread): the encoder's input grows; an error may have taken a prefix
+        #[verifier::external_body] pub fn write_all(&mut self, data: &Vec<u8>) -> (r: Result<(), std::io::Error>)
+            ensures final(self).bw == old(self).bw, final(self).finished == old(self).finished,
+                r is Ok ==> final(self).input == old(self).input + data@,
+        { unimplemented!() }
+        // do_finish(): ends the stream - the archive at the encoder's path now decodes to everything written so far (w.archives);
+        // ASSUMED (zstd crate): finishing an already finished encoder does nothing
+        #[verifier::external_body] pub fn do_finish(&mut self, Tracked(w): Tracked<&mut World>) -> (r: Result<(), std::io::Error>)
+            ensures final(self).bw == old(self).bw, final(self).input == old(self).input,
+                r is Ok ==> final(self).finished,
+                (r is Ok && !old(self).finished) ==> final(w).archives == old(w).archives.insert(old(self).bw.f.p, old(self).input),
+                (r is Ok && old(self).finished) ==> final(w).archives == old(w).archives,
+                forall|q: Seq<char>| q != old(self).bw.f.p ==> (final(w).archives.dom().contains(q) == old(w).archives.dom().contains(q) && final(w).archives[q] == old(w).archives[q]),
+        { unimplemented!() }
+    }
+}
+// serde_json::to_writer into the encoder: the encoder's input grows by the JSON text of the value; no file I/O yet
+#[verifier::external_body] pub fn to_writer_enc<T>(e: &mut zstdw::Encoder, v: &T) -> (r: Result<(), serde_json::Error>)
+    ensures final(e).bw == old(e).bw, r is Ok ==> final(e).input == old(e).input + json_enc(*v) { unimplemented!() }
 
 // ---------------- reading files, hashing, decoding (units config, index) ----------------
 pub uninterp spec fn sha256(b: Seq<u8>) -> Seq<u8>;
